@@ -4,3 +4,5 @@ import BedVerif.Model.GMap
 import BedVerif.Spec.Lapper
 import BedVerif.Lemmas.FastCover
 import BedVerif.Props.C18Fast
+import BedVerif.Lemmas.FastCount
+import BedVerif.Props.C19Fast
